@@ -299,17 +299,28 @@ fn run_bw<V: Val>(c: &Case, out: &mut String) {
     if c.ops.contains('M') {
         // shared automaton searched from 8 threads, interleaved with the main thread
         let expect: Vec<String> = c.hays.iter().map(|h| obs_all_bw(&pma, c.kind, h)).collect();
+        let stress = c.ops.contains('X');
+        let budget = std::time::Duration::from_millis(if stress { 400 } else { 12 });
+        let reps = if stress { 25usize } else { 1usize };
+        let barrier = std::sync::Barrier::new(8);
         let ok = std::thread::scope(|s| {
             let hs: Vec<_> = (0..8).map(|t| {
-                let pma = &pma; let expect = &expect; let hays = &c.hays; let kind = c.kind;
+                let pma = &pma; let expect = &expect; let hays = &c.hays; let kind = c.kind; let barrier = &barrier;
                 s.spawn(move || {
+                    // every thread keeps searching until its time budget is used up, so that the
+                    // searches of different threads really overlap (a racy cache needs that)
                     let mut ok = true;
-                    for r in 0..4 {
+                    let start = std::time::Instant::now();
+                    let mut r = 0usize;
+                    barrier.wait();
+                    loop {
                         for (j, h) in hays.iter().enumerate() {
                             let jj = (j + t + r) % hays.len();
                             let _ = h;
-                            ok &= obs_all_bw(pma, kind, &hays[jj]) == expect[jj];
+                            for _ in 0..reps { ok &= obs_all_bw(pma, kind, &hays[jj]) == expect[jj]; }
                         }
+                        r += 1;
+                        if !ok || (r >= 4 && start.elapsed() >= budget) { break; }
                     }
                     ok
                 })
@@ -473,16 +484,25 @@ fn run_cw<V: Val>(c: &Case, out: &mut String) {
     if c.ops.contains('M') {
         let hays: Vec<&str> = c.hays.iter().map(|h| std::str::from_utf8(h).unwrap()).collect();
         let expect: Vec<String> = hays.iter().map(|h| obs_all_cw(&pma, c.kind, h)).collect();
+        let stress = c.ops.contains('X');
+        let budget = std::time::Duration::from_millis(if stress { 400 } else { 12 });
+        let reps = if stress { 25usize } else { 1usize };
+        let barrier = std::sync::Barrier::new(8);
         let ok = std::thread::scope(|s| {
             let hs: Vec<_> = (0..8).map(|t| {
-                let pma = &pma; let expect = &expect; let hays = &hays; let kind = c.kind;
+                let pma = &pma; let expect = &expect; let hays = &hays; let kind = c.kind; let barrier = &barrier;
                 s.spawn(move || {
                     let mut ok = true;
-                    for r in 0..4 {
+                    let start = std::time::Instant::now();
+                    let mut r = 0usize;
+                    barrier.wait();
+                    loop {
                         for j in 0..hays.len() {
                             let jj = (j + t + r) % hays.len();
-                            ok &= obs_all_cw(pma, kind, hays[jj]) == expect[jj];
+                            for _ in 0..reps { ok &= obs_all_cw(pma, kind, hays[jj]) == expect[jj]; }
                         }
+                        r += 1;
+                        if !ok || (r >= 4 && start.elapsed() >= budget) { break; }
                     }
                     ok
                 })
